@@ -14,13 +14,27 @@
      [lerr].  a_str_exit hands its block to the caller, who frees it ([EvFree] appended to the
      trace).  realloc always yields a new identity (the harness' allocator always moves). *)
 From Coq Require Import NArith ZArith List Bool.
-From LibaV Require Import C06.StrDefs.
+From LibaV Require Import C06.StrDefs C06.StrSpec.
 Import ListNotations.
 Local Open Scope N_scope.
 
 (* ------------------------------------------------------------------ one object across a failed op *)
 Definition bsize (s : str) : option N :=
   match ptr s with Some b => Some (len b) | None => None end.
+
+(* "the container still holds exactly its previous contents and satisfies its invariants":
+   one object before ([s]) and after ([s']) an operation in which a request was refused *)
+Definition keeps (s s' : str) : Prop :=
+  num s' = num s /\ mem s' = mem s /\ bsize s' = bsize s /\ content s' = content s /\
+  (terminated s -> terminated s').
+
+(* return values of a retry and of the fault-free run: equal, except that the block handed over
+   by a_str_exit may differ beyond the terminator *)
+Definition ret_equiv (k : N) (r r' : ret) : Prop :=
+  match r, r' with
+  | RPtr (Some b), RPtr (Some b') => take k b = take k b'
+  | _, _ => r = r'
+  end.
 
 (* replace the schedule (memory becomes available again / a retry with another schedule) *)
 Definition set_sch (sc : sched) (m : mstate) : mstate := mkM (sA m) (sB m) sc.
